@@ -228,7 +228,14 @@ fn register(run: &mut Run, req: &Value) -> Value {
                 .as_array()
                 .unwrap()
                 .iter()
-                .map(|a| PublicKeyCredentialParameters { ty: PublicKeyCredentialType::PublicKey, alg: alg_of(a.as_str().unwrap()) })
+                .map(|a| {
+                    // "u:<alg>": an entry whose credential type string this library does not know
+                    let name = a.as_str().unwrap();
+                    match name.strip_prefix("u:") {
+                        Some(n) => PublicKeyCredentialParameters { ty: PublicKeyCredentialType::Unknown, alg: alg_of(n) },
+                        None => PublicKeyCredentialParameters { ty: PublicKeyCredentialType::PublicKey, alg: alg_of(name) },
+                    }
+                })
                 .collect(),
             timeout: None,
             exclude_credentials: exclude,
@@ -329,7 +336,7 @@ fn judge_register(run: &mut Run, p: &Prepared, c: &CreatedPublicKeyCredential, e
         d["ed"] = json!(ad.ext.is_some());
         d["fmt"] = json!("None");
         if let Some(at) = &ad.attested {
-            let fresh = !run.seen_ids.iter().any(|i| *i == at.cred_id);
+            let fresh = !run.seen_ids.iter().any(|i| *i == at.cred_id) && crate::cerrun::globally_fresh(&at.cred_id);
             run.seen_ids.push(at.cred_id.clone());
             let name = run.sh.lock().unwrap().dict.cred_name_or_new(&at.cred_id);
             d["cred"] = json!(run.sh.lock().unwrap().dict.cred_name(&c.raw_id));
@@ -564,6 +571,10 @@ fn u2f(run: &mut Run, op: &str, req: &Value) -> Value {
             match f.as_str().unwrap() {
                 "UP" => flags |= Flags::UP,
                 "UV" => flags |= Flags::UV,
+                "BE" => flags |= Flags::BE,
+                "BS" => flags |= Flags::BS,
+                "AT" => flags |= Flags::AT,
+                "ED" => flags |= Flags::ED,
                 _ => {}
             }
         }
